@@ -45,6 +45,16 @@ def call(ctx, fr, f, args, kwargs):
             return call_function(ctx, fr, f.__func__, [lift_object(ctx, selfv)] + list(args), kwargs,
                                  owner=owner_of(type(selfv), f.__func__))
     if isinstance(f, types.FunctionType):
+        if f not in ctx.stubs and pure_string_function(f):
+            flat = list(args) + list(kwargs.values())
+            if any(isinstance(a, SAtom) for a in flat) and all(
+                    isinstance(a, SAtom) or not o.is_symbolic_value(a) for a in flat):
+                # pure function of label strings: the REAL function is evaluated on every candidate
+                ctx.funcs_seen.add(f)
+                keys = list(kwargs)
+                r, exc = lift(lambda *xs: f(*xs[:len(args)], **dict(zip(keys, xs[len(args):]))), *flat)
+                raise_if(ctx, fr, exc, "Other")
+                return r
         if f in ctx.stubs or I_.interpretable(ctx, f):
             return call_function(ctx, fr, f, args, kwargs)
     if isinstance(f, type):
@@ -70,6 +80,14 @@ def call(ctx, fr, f, args, kwargs):
             raise_if(ctx, fr, exc, "Other")
             return r
     raise Unsupported("call of %r with symbolic arguments" % (f,))
+
+
+PURE_STRING_FUNCS = {("spydrnet.util.patterns", "_is_pattern_absolute"),
+                     ("spydrnet.util.patterns", "_value_matches_pattern")}
+
+
+def pure_string_function(f):
+    return (getattr(f, "__module__", None), getattr(f, "__name__", None)) in PURE_STRING_FUNCS
 
 
 def owner_of(cls, fn):
@@ -197,8 +215,21 @@ def construct(ctx, fr, cls, args, kwargs):
         return h_range(ctx, fr, args, kwargs)
     if cls is reversed:
         return o.seq_reversed(ctx, fr, o.as_slist(ctx, fr, args[0]))
-    if cls is filter or cls is map:
-        raise Unsupported("filter/map")
+    if cls is filter:
+        sl = o.as_slist(ctx, fr, args[1])
+        mask = []
+        g0 = fr.g
+        for k in range(sl.cap):
+            fr.g = AND(g0, present(sl, k))
+            keep = False
+            if live(ctx, fr) is not False:
+                keep = I_.truth_of(ctx, fr, call(ctx, fr, args[0], [sl.el[k]], {})) if args[0] is not None \
+                    else I_.truth_of(ctx, fr, sl.el[k])
+            mask.append(AND(present(sl, k), keep))
+        fr.g = g0
+        return SList(sl.len, sl.el, None, False, mask)
+    if cls is map:
+        raise Unsupported("map")
     mod = getattr(cls, "__module__", "") or ""
     if mod.startswith(ctx.interp_prefixes) or cls in ctx.__dict__.get("local_classes", ()):
         loc = Local(cls, {})
